@@ -17,6 +17,7 @@ impl Binder {
             return Err(ErrorKind::Todo("cascade drop".into()).into());
         }
         let mut table_ids = Vec::with_capacity(names.len());
+        let mut dropped = Vec::with_capacity(names.len());
         for name in names {
             let name = lower_case_name(&name);
             let (schema_name, table_name) = split_name(&name)?;
@@ -28,6 +29,25 @@ impl Binder {
                 .ok_or_else(|| ErrorKind::InvalidTable(table_name.into()).with_spanned(&name))?;
             let id = self.egraph.add(Node::Table(table_id));
             table_ids.push(id);
+            dropped.push((table_id, name));
+        }
+        // a table or view that another view selects from can not be dropped alone:
+        // the view would be left with a query over a table that no longer exists
+        for (table_id, name) in &dropped {
+            for (schema_id, schema) in self.catalog.all_schemas() {
+                for (view_id, view) in schema.all_tables() {
+                    let view_ref = TableRefId::new(schema_id, view_id);
+                    let Some(query) = view.query() else { continue };
+                    let depends = (query.as_ref().iter()).any(|n| matches!(n, Node::Table(t) if t == table_id));
+                    if depends && !dropped.iter().any(|(id, _)| *id == view_ref) {
+                        let (_, table_name) = split_name(name)?;
+                        return Err(
+                            ErrorKind::DependedByView(table_name.into(), view.name().into())
+                                .with_spanned(name),
+                        );
+                    }
+                }
+            }
         }
         let list = self.egraph.add(Node::List(table_ids.into()));
         let drop = self.egraph.add(Node::Drop(list));
